@@ -327,7 +327,9 @@ class Ctx:
         """model of the path condition alone (reachability witness)"""
         t0 = time.time()
         self.nqueries += 1
+        self.solver.set('timeout', self.opts.get('witness_timeout_ms', self.opts['query_timeout_ms']))
         r = self.solver.check()
+        self.solver.set('timeout', self.opts['query_timeout_ms'])
         model = self.solver.model() if r == z3.sat else None
         if r == z3.unknown:
             r, model = self._check_fresh(z3.BoolVal(True))
@@ -336,14 +338,62 @@ class Ctx:
             return 'sat', self.model_values(model)
         return str(r), None
 
+    def relaxed_models(self, n=3):
+        """candidate input points for the refuting direction when the exact path condition is too hard for the solver: models of
+        the LINEAR part of the path condition (bounds of the inputs and linear branch constraints).  They are only candidates:
+        whatever they are, a replay of the real float code in which an obligation fails is a genuine counterexample."""
+        def linear(t):
+            k = t.decl().kind()
+            if k in (z3.Z3_OP_MUL,):
+                nonconst = [a for a in t.children() if not (z3.is_rational_value(a) or z3.is_int_value(a))]
+                if len(nonconst) > 1:
+                    return False
+            if k in (z3.Z3_OP_DIV, z3.Z3_OP_POWER, z3.Z3_OP_IDIV, z3.Z3_OP_MOD):
+                if not all(z3.is_rational_value(a) or z3.is_int_value(a) for a in t.children()[1:]):
+                    return False
+            if k == z3.Z3_OP_UNINTERPRETED and t.num_args() > 0:
+                return False
+            return all(linear(c) for c in t.children())
+        s = z3.Solver()
+        s.set('timeout', 2000)
+        for a in self.solver.assertions():
+            try:
+                if linear(a):
+                    s.add(a)
+            except Exception:
+                pass
+        out = []
+        for _ in range(n):
+            if s.check() != z3.sat:
+                break
+            m = s.model()
+            vals = self.model_values(m)
+            out.append(vals)
+            # move away from this point on every real input
+            s.add(z3.Or(*[v != m.eval(v, model_completion=True) for v in self.inputs.values()]))
+        return out
+
     # ----- abstracted functions with exact congruence
     def rf(self, t):
-        return self.norm.to_rf(t)
+        from . import poly as _poly
+        b = self.opts.get('rf_budget')
+        if not b:
+            return self.norm.to_rf(t)
+        old = (_poly.MAX_MONOMIALS, _poly.MAX_BITS)
+        _poly.MAX_MONOMIALS, _poly.MAX_BITS = b
+        try:
+            return self.norm.to_rf(t)
+        finally:
+            _poly.MAX_MONOMIALS, _poly.MAX_BITS = old
 
     def fn_app(self, fname, arg, mk):
         """application of an abstracted function to SR arg: same result object for arguments that are equal as
         rational functions (exact polynomial identity test)."""
         lst = self.fnapps.setdefault(fname, [])
+        aid = arg.t.get_id()
+        for (rf0, a0, res0) in lst:
+            if a0._t is not None and a0._t.get_id() == aid:      # z3 hash-conses terms: same id = same structure
+                return res0
         try:
             arf = self.rf(arg.t)
         except TooBig:
@@ -618,7 +668,18 @@ class SR:
                 sg = s > 0
                 return math.inf if bool(sg) else -math.inf
             return s * SR(c=1 / o.c)
-        CTX.solver.add(o.t != 0)       # float division by a symbolic zero is outside the claim (recorded)
+        if s.c is not None and s.c == 0:
+            return SR(c=Fraction(0))       # 0/x for a non-zero x
+        ctx = CTX
+        nonzero = False
+        try:
+            rf = ctx.rf(o.t)
+            sn, sd = ctx.sign_poly(rf.n), ctx.sign_poly(rf.d)
+            nonzero = sn in (1, -1) and sd in (1, -1)
+        except TooBig:
+            pass
+        if not nonzero:
+            ctx.solver.add(o.t != 0)       # float division by a symbolic zero is outside the claim (recorded)
         return SR(t=s.t / o.t)
 
     def __rtruediv__(s, o):
@@ -709,6 +770,10 @@ class SR:
                 raise Unsupported('log10 of non-positive constant')
             return _log10_of_const(s.c)
         ctx = CTX
+        tid = s.t.get_id()
+        for key, a0, rf0 in ctx.atoms:
+            if a0._t is not None and a0._t.get_id() == tid:
+                return SR(ll=({key: (a0, Fraction(1))}, Fraction(0)))
         # decompose monomial/monomial with positive variables into a sum of variable atoms
         try:
             rf = ctx.rf(s.t).reduce_monomials()
@@ -1299,6 +1364,8 @@ def approx(a, b, rel=1e-9, abs_=0.0):
         if d.c is not None and b.c is not None:
             return abs(d.c) <= Fraction(repr(rel)) * abs(b.c) + Fraction(repr(abs_))
         if d.c is None:
+            if a._t is not None and b._t is not None and a._t.get_id() == b._t.get_id():
+                return True
             try:
                 if CTX.rf(d.t).n.is_zero():
                     return True
